@@ -203,9 +203,14 @@ def rule_a(chk, wr, buf, is_file):
     closes = [n for n in g.nodes if n.kind == 'stmt' and any(r == 'self' for r, _c in pat.method_calls(n.ast, '_close'))]
     errors = [n for n in g.nodes if n.kind == 'stmt' and pat.fires(n.ast, 'error')]
     sends = [n for n in g.nodes if n.kind == 'stmt' and isinstance(n.ast, ast.Assign) and any(
-        (call_name(c) or '').split('.')[-1] in ('send', 'write', 'fd_write') and c.args and src(c.args[-1]) == dv for c in calls_in(n.ast))]
+        (call_name(c) or '').split('.')[-1] in ('send', 'write', 'fd_write') and c.args for c in calls_in(n.ast))]
     need(sends, f'C11.a: {wr.ref} does not hand the payload to the OS')
     nv = src(sends[0].ast.targets[0])
+    sent = {src(c.args[-1]) for c in calls_in(sends[0].ast) if (call_name(c) or '').split('.')[-1] in ('send', 'write', 'fd_write') and c.args}
+    # what is handed to the OS is the payload itself (possibly re-bound to its encoded form under the same name)
+    same_obj = sent == {dv}
+    chk.ob('a', wr.ref, 'the object handed to the OS is the one the accepted byte count is applied to (the tail put back is sliced from exactly what was written)',
+           same_obj, loc(wr, sends[0].ast), detail=f'written: {sorted(sent)}, sliced/put back: `{dv}`', discr='written-is-sliced')
     # tail slices start at the count returned by the OS
     for n, lower in requeue_tail:
         chk.ob('a', wr.ref, 'the part put back after a partial send starts at the number of bytes the OS accepted', lower == nv, loc(wr, n.ast),
